@@ -46,6 +46,8 @@ def build_value(v, npf):
         return np.array([[build_value(e, False) for e in row] for row in v["rows"]], dtype=dt)
     if k == "sym":
         return term_to_sympy(v["term"])
+    if k == "pname":           # a declared p-array of a tdm program is passed by its name
+        return v["s"]
     raise ValueError(k)
 
 
@@ -62,6 +64,8 @@ def build_program(p, npf):
             d["args"] = [build_value(a, npf) for a in o["args"]]
             d["kwargs"] = {x["k"]: build_value(x["v"], npf) for x in o["kw"]}
         bb._operations.append(d)
+    for e in p.get("vars", []):
+        bb._var[e["n"]] = build_value(e["v"], npf)
     return bb
 
 
@@ -120,7 +124,7 @@ def run(rep, tier, seed):
     rep.cov["distinct_nontrivial"] = len(cases)
     rep.cov["rule"] = ("every program of <= %d operations over the menu: each scalar kind (ints incl. 2^62 and -2^63, floats incl. -0.0, 5e-324, 1e-300, "
                        "+-1e300, complex with negative parts, booleans, strings), 18 arrays (int/float/complex, 6 shapes up to 3x3), lists, SymPy terms, "
-                       "in positional, keyword and option position; each built twice (Python and 64-bit NumPy scalars) through the API" % nops)
+                       "in positional, keyword and option position; tdm programs with declared p-arrays (one, two and three rows) passed by name next to arrays passed by value; each built twice (Python and 64-bit NumPy scalars) through the API" % nops)
     rep.assumptions += ["programs are built the way the repository's tests do (BlackbirdProgram + _operations/_target/_type)",
                         "-0.0 compares equal to 0.0"]
 
